@@ -219,7 +219,7 @@ class World(object):
         os.makedirs(self.top)
         self.loc = os.path.join(self.top, SOS) if case["where"] == "under" else self.top
         self.is_archive = case["pack"] in ARCHIVE_PACKS or case["pack"] in ("text", "badgz")
-        self.exd = os.path.join(self.loc, "ex d" if case["space"] == "exdir" else "exd")
+        self.exd = os.path.join(self.loc, "ex d" if case["space"] != "none" else "exd")
         self.indir = os.path.join(self.loc, "ind", "in")
         self.real_of = {}
         self.abs_of = {}
@@ -474,8 +474,8 @@ def run_api(w, case, stats):
         os.makedirs(w.exd)
         if case["evil"] == "link":
             os.makedirs(os.path.join(w.exd, "sib2"))
-        if case["space"] == "exdir":
-            # what the first word of the split path would name: must not be touched
+        if case["space"] == "exdirx":
+            # what the text before the blank names: must not be touched
             os.makedirs(os.path.join(w.loc, "ex"))
             with open(os.path.join(w.loc, "ex", "decoy"), "w") as f:
                 f.write("decoy\n")
@@ -511,14 +511,14 @@ def run_api(w, case, stats):
             ctx = hydration.create_context(analysed, context=override)
             up, down = w.rel(ctx.root, analysed)
             af = sorted(ctx.all_files)
-            allfiles = ("listing" if af == sorted(files) else
-                        "archives" if af and all(os.path.dirname(f) == analysed for f in af) else "other")
+            top = sorted(f for f in files if os.path.dirname(f) == analysed and os.path.basename(f) == ARC)
             events.append(dict(ev="create", ok=True, err="none", cls=type(ctx).__name__, up=up, down=down,
-                               allfiles=allfiles, len=len(ctx.root) - len(analysed) + 100))
+                               af_listing=(af == sorted(files)), af_archives=(af == top),
+                               len=len(ctx.root) - len(analysed) + 100))
         except Exception as ex:
             pending = ex
-            events.append(dict(ev="create", ok=False, err=kind_of(ex), cls="none", up=0, down=[], allfiles="none",
-                               len=0))
+            events.append(dict(ev="create", ok=False, err=kind_of(ex), cls="none", up=0, down=[], af_listing=False,
+                               af_archives=False, len=0))
         given = None
         if w.rng.random() < 0.5:
             given = dr.Broker()
